@@ -99,6 +99,10 @@ def decode_message(msg_bytes, time=0, check=True):
         if end != SYSEX_END:
             raise ValueError(f'invalid sysex end byte {end!r}')
 
+    elif len(data) != spec['length'] - 1:
+        raise ValueError(
+            'wrong number of bytes for {} message'.format(spec['type']))
+
     if check:
         check_data(data)
 
